@@ -596,15 +596,17 @@ func c10ErrClass(err error) string {
 		return "too-many-redirects"
 	case strings.Contains(m, "too many authentication attempts"):
 		return "too-many-auth-attempts"
-	case strings.Contains(m, "Authorization error"), strings.Contains(m, "Authentication required"), strings.Contains(m, "401"):
+	case strings.Contains(m, "Authorization error"), strings.Contains(m, "Authentication required"):
 		return "auth-error"
-	case strings.Contains(m, "c10 request cap"), strings.Contains(m, "Fatal error"), strings.Contains(m, "500"):
+	case strings.Contains(m, "file already closed"):
+		return "put-body-file-already-closed"
+	case strings.Contains(m, "c10 request cap"), strings.Contains(m, "Fatal error"), strings.Contains(m, "Server error"):
 		return "server-500"
 	case strings.Contains(m, "invalid URL escape"), strings.Contains(m, "parse "):
 		return "bad-location"
 	case strings.Contains(m, "tls:"), strings.Contains(m, "HTTP response to HTTPS"), strings.Contains(m, "malformed HTTP"), strings.Contains(m, "EOF"), strings.Contains(m, "connection reset"), strings.Contains(m, "broken pipe"):
 		return "transport-error"
-	case strings.Contains(m, "502"), strings.Contains(m, "Bad Gateway"):
+	case strings.Contains(m, "Bad Gateway"):
 		return "unknown-host"
 	}
 	return "other-error"
@@ -976,9 +978,20 @@ func c10RunFor(block string, choose func(*vx.X) *c10Script) vx.RunFunc {
 				return r
 			}
 			w.end()
-			if strings.Contains(d.errmsg, "with Body length") && attempt < 9 {
+			if strings.Contains(d.errmsg, "with Body length") {
 				r.Counters["reruns_after_client_body_resend_flake"]++
-				continue
+				if attempt < 11 {
+					continue
+				}
+				// the flake persisted: the case is inconclusive, never a violation (see props/C10/note-body-reuse.md)
+				pool <- w
+				r.Inconcl = "client-side request-body re-send flake persisted over 12 attempts"
+				r.Outcome = block + "/body-resend-flake"
+				sm := sc.describe(w)
+				sm["error"] = w.symbolic(d.errmsg)
+				r.Sample = sm
+				r.Counters["inconclusive_case/"+sc.key()]++
+				return r
 			}
 			break
 		}
@@ -1009,6 +1022,10 @@ func c10RunFor(block string, choose func(*vx.X) *c10Script) vx.RunFunc {
 			if o.Hop > 0 {
 				nredir++
 			}
+		}
+		if d.result == "too-many-redirects" {
+			r.Counters["clause3_chain_cut_by_hop_limit"]++
+			r.Counters[fmt.Sprintf("clause3_chain_cut_after_%d_followed_redirects", v.maxHop)]++
 		}
 		if capped {
 			r.Counters["cases_stopped_by_server_request_cap"]++
@@ -1041,6 +1058,19 @@ func c10RunFor(block string, choose func(*vx.X) *c10Script) vx.RunFunc {
 			sample["helper_calls"] = hc
 		}
 		r.Sample = sample
+		if os.Getenv("C10_DUMP") == "other" {
+			if d.result == "other-error" || (c10Kinds[sc.Kind].family == "put" && d.result == "auth-error") {
+				fmt.Printf("OTHER %s %s %s\n", sc.key(), d.result, w.symbolic(d.errmsg))
+			}
+		} else if os.Getenv("C10_DUMP") == "viol" {
+			for _, vv := range v.viol {
+				fmt.Printf("VIOL %s %s\n", sc.key(), vv.Fingerprint)
+			}
+		} else if dump := os.Getenv("C10_DUMP"); dump != "" && strings.Contains(sc.key(), dump) {
+			if b, e := json.MarshalIndent(sample, "", " "); e == nil {
+				fmt.Printf("DUMP %s\n%s\n", sc.key(), b)
+			}
+		}
 		return r
 	}
 }
@@ -1151,7 +1181,11 @@ func TestVerifC10(t *testing.T) {
 		for k, v := range st.Counters {
 			counters[k] += v
 		}
-		perBlock[b.name] = map[string]interface{}{"cases": st.Executions, "wall_s": time.Since(t0).Seconds()}
+		oh := map[string]int64{}
+		for k, v := range st.Outcomes {
+			oh[strings.TrimPrefix(k, b.name+"/")] = v
+		}
+		perBlock[b.name] = map[string]interface{}{"cases": st.Executions, "wall_s": time.Since(t0).Seconds(), "outcomes": oh}
 	}
 	clauses := map[string]int64{}
 	for k, v := range counters {
